@@ -222,7 +222,42 @@ class Summ:
         return eff
 
 
+REORDERING = ("swap_remove", "sort", "sort_by", "sort_by_key", "sort_by_cached_key", "sort_unstable", "sort_unstable_by", "sort_unstable_by_key", "reverse",
+              "rotate_left", "rotate_right", "swap", "dedup", "dedup_by", "dedup_by_key", "select_nth_unstable", "swap_remove_index", "swap_remove_full")
+
+
+def positional_lists_keep_their_order(F, res, rule="Y21"):
+    """Y21: fields and parameters are matched by POSITION once the labelled ones are taken out. `infer_pattern` (constructor patterns)
+    and `unify` (labelled function types) both work on a copy of the declared list: a sub-pattern / argument with a label removes
+    the entry it names, the remaining ones are then paired with the remaining entries by their index. That only works while the
+    removal keeps the order of what is left - `Vec::remove`, not `swap_remove` (which moves the last entry into the hole: in
+    `Entry(id, name, score)` matched as `Entry(score: s, a, b)` the binders get each other's types), and nothing sorts, reverses
+    or dedups the list. The two sites must agree (the source says so in a comment); both are checked with one rule."""
+    units = [u for u in ("ide::ty::infer::InferCtx::infer_pattern", "ide::ty::infer::InferCtx::unify") if u in F.fns]
+    if len(units) < 2:
+        res.anchor_missing(rule, "ide::ty::infer::InferCtx::infer_pattern / unify")
+        return
+    removes, bad = 0, []
+    for u in units:
+        for q in F.with_helpers(u, depth=1, stop=units):
+            g = F.fns.get(q)
+            if g is None or not g.blocks or not q.startswith(("ide::ty::", "<ide::ty::")):
+                continue
+            for _b, t in g.calls():
+                c = FL.short(callee(t) or callee_def(t) or "")
+                last = c.rsplit("::", 1)[-1]
+                if last == "remove" and "Vec" in c:
+                    removes += 1
+                if last in REORDERING and ("Vec" in c or "[T]" in c or "slice" in c or "IndexMap" in c or "VecDeque" in c):
+                    bad.append("%s in %s (line %s)" % (c, FL.short(q), t["ln"]))
+    res.floor("order-preserving removals in the label reordering of infer_pattern and unify", removes, 2)
+    res.ob(rule, "label-reordering/keeps-order", "what infer_pattern and unify leave of the declared fields / parameters after taking the labelled ones out is "
+           "still in declaration order: nothing in them reorders a list (swap_remove, sort, reverse, dedup, ..)", not bad, where=F.fn(units[0]).loc(),
+           how="Vec::remove x%d, no reordering operation" % removes if not bad else "; ".join(bad))
+
+
 def run(F, res, tier):
+    positional_lists_keep_their_order(F, res)
     # Y2: the call graph behind the inference groups resolves callee names like the inferencer does
     from rules import c05
     c05.resolver_provenance(F, res, only="ide::def::scope::dependency_order_query", rule="Y2")
